@@ -50,8 +50,14 @@ class Sim:
         for k, o in items:
             if k == 'f':
                 self.ref[o] -= 1
-            else:
+            elif k == 'm':
                 self.mst[o] = 1
+            elif k == 'sf':          # deferred start of a waiter
+                self.ref[o] -= 1
+                if self.fst[o] == 2: self.chain[o].append((0, 0))
+            else:                    # deferred start of a locker
+                if self.mst[o] == 0: self.mst[o] = 1
+                else: self.mq[o].append((0, 0))
 
     def drain(self, first, pushed):
         self.enq += len(pushed) + 1
@@ -93,9 +99,10 @@ def gen_random(rng, engine, name, nops, aim_pre):
             dead = [f for f in range(NF) if S.fst[f] == 0]
             if dead:
                 f = rng.choice(dead)
-                ops.append([1, f, rng.choice([0, 0, 1])]); S.fst[f] = 1
+                ops.append([1, f, rng.choice([0, 0, 1, 2, 3])]); S.fst[f] = 1
                 if rng.random() < 0.9:
                     ops.append([2, f]); S.fst[f] = 2
+                    if rng.random() < 0.2: ops.append([8, f])
             continue
         if r < 0.42:
             fs = [f for f in range(NF) if S.fst[f] in (2, 3)]
@@ -105,9 +112,11 @@ def gen_random(rng, engine, name, nops, aim_pre):
             for _ in range(burst):
                 k = rng.choice([0, 0, 0, 1, 2])
                 if k == 0:
-                    mode = 1 if (coro and rng.random() < 0.25) else 0
+                    mode = rng.choice([1, 2]) if (coro and rng.random() < 0.4) else 0
                     ops.append([3, f, S.fresh(), mode]); S.frames += 1
-                    if S.fst[f] == 2: S.chain[f].append((0, 0))
+                    if mode == 2:
+                        S.rq.append(('sf', f)); S.ref[f] += 1; S.enq += 1
+                    elif S.fst[f] == 2: S.chain[f].append((0, 0))
                     if mode == 1: S.drain([], [])
                 elif k == 1:
                     free = [t for t in range(NH) if not S.hbusy[t]]
@@ -126,8 +135,9 @@ def gen_random(rng, engine, name, nops, aim_pre):
             fs = [f for f in range(NF) if S.fst[f] == 2]
             if not fs: continue
             f = rng.choice(fs)
-            kind = rng.choice([0, 0, 0, 1, 2, 3])
-            how = 0 if kind == 3 else hows()
+            kind = rng.choice([0, 0, 0, 1, 2, 3, 4])
+            how = 0 if kind >= 3 else hows()
+            if kind < 3 and rng.random() < 0.2: how += 10
             s = rng.randrange(NS)
             ops.append([6, f, kind, how, s, rng.randrange(1, 1000)])
             S.fst[f] = 3
@@ -137,7 +147,8 @@ def gen_random(rng, engine, name, nops, aim_pre):
                 elif k == 1: S.hbusy[i] = False
                 else: S.cbusy[i] = False
             S.chain[f] = []
-            S.dispose(items, how, s)
+            if how >= 10: items.reverse()
+            S.dispose(items, how % 10, s)
             continue
         if r < 0.66:
             fs = [f for f in range(NF) if S.fst[f] in (1, 3)]
@@ -153,9 +164,11 @@ def gen_random(rng, engine, name, nops, aim_pre):
                 ops.append([10, m])
                 if S.mst[m] == 0: S.mst[m] = 1
             elif k == 0:
-                mode = 1 if (coro and rng.random() < 0.25) else 0
+                mode = rng.choice([1, 2]) if (coro and rng.random() < 0.4) else 0
                 ops.append([11, m, S.fresh(), mode]); S.frames += 1
-                if S.mst[m] == 0: S.mst[m] = 1
+                if mode == 2:
+                    S.rq.append(('sm', m)); S.enq += 1
+                elif S.mst[m] == 0: S.mst[m] = 1
                 else: S.mq[m].append((0, 0))
                 if mode == 1: S.drain([], [])
             elif k == 1:
@@ -196,9 +209,9 @@ def gen_random(rng, engine, name, nops, aim_pre):
         if r < 0.94:
             g = rng.randrange(NG)
             if S.gens[g] is None:
-                ops.append([20, g, rng.randrange(0, 5)]); S.gens[g] = 1
+                ops.append([20, g, rng.randrange(0, 5), rng.choice([0, 1])]); S.gens[g] = 1
             elif rng.random() < 0.8:
-                ops.append([21, g, rng.choice([0, 1, 2] if coro else [0, 1])])
+                ops.append([21, g, rng.choice([0, 1, 2] if coro else [0, 1]), rng.randrange(0, 9)])
             else:
                 ops.append([22, g]); S.gens[g] = None
             continue
@@ -214,11 +227,11 @@ def gen_random(rng, engine, name, nops, aim_pre):
         else:
             ops.append([rng.choice([31, 99])])    # rejected in normal mode / unknown opcode
     if rng.random() < 0.1:
-        ops.insert(rng.randrange(len(ops) + 1), rng.choice([[6, 9, 0, 0, 0, 1], [3, 0], [14, 0, 5, 0], [4, 0, 7], [1, 0, 2], [21, 3, 7]]))
+        ops.insert(rng.randrange(len(ops) + 1), rng.choice([[6, 9, 0, 0, 0, 1], [3, 0], [14, 0, 5, 0], [4, 0, 7], [1, 0, 4], [21, 3, 7, 0], [6, 0, 0, 13, 0, 1], [8, 9], [20, 0, 1]]))
     return Case(engine, name, ops)
 
 
-def waiters_case(engine, name, f, ncoro, nsync, ncb, kind, how, ty=0, pre=0, post_pause=True):
+def waiters_case(engine, name, f, ncoro, nsync, ncb, kind, how, ty=0, pre=0, post_pause=True, mode=0):
     coro = engine[2] == '1'
     ops = [[31]] * pre if coro else []
     ops = [list(o) for o in ops]
@@ -232,13 +245,13 @@ def waiters_case(engine, name, f, ncoro, nsync, ncb, kind, how, ty=0, pre=0, pos
     for i in seq:
         k = kinds[i]
         if k == 0:
-            ops.append([3, f, w, 0]); w += 1
+            ops.append([3, f, w, mode if coro else 0]); w += 1
         elif k == 1:
             ops.append([4, f, t]); t += 1
         else:
             ops.append([5, f, c]); c += 1
     ops.append([6, f, kind, how, 1, 77])
-    if how == 2:
+    if how % 10 == 2:
         ops.append([30, 1, 1 if coro else 0])
     if coro and post_pause:
         ops.append([31])
@@ -317,8 +330,22 @@ def gen(seed, tier):
         for k in range(1, 6):
             for kind in (0, 1, 2, 3):
                 how = 0 if kind == 3 else (k % 3 if coro else (k % 2) * 2)
-                add(waiters_case(eng, "", k % NF, k if kind != 1 else 3, k, k, kind, how, ty=k % 2))
+                add(waiters_case(eng, "", k % NF, k if kind != 1 else 3, k, k, kind, how, ty=(k + kind) % 4))
+            add(waiters_case(eng, "", k, k, k % 3, k % 2, 4, 0, ty=k % 4))      # move-assignment of an empty promise
         add(waiters_case(eng, "", 1, 3, 5, 5, 0, 0)); add(waiters_case(eng, "", 1, 0, 5, 0, 1, 0)); add(waiters_case(eng, "", 1, 0, 0, 5, 2, 0, ty=1))
+        # resolution inside coro_queue::create_suspend_point
+        for nco in (0, 1, 2, 3, 4, 6, 7, 13):
+            for how in ((10, 11, 12) if coro else (10, 12)):
+                add(waiters_case(eng, "", 2, nco, nco % 2, nco % 3, nco % 3, how, ty=nco % 4))
+        if coro:
+            # coroutines whose start goes through the ready queue
+            for nco in (1, 2, 3, 4, 5):
+                add(waiters_case(eng, "", 3, nco, 1, 1, 0, nco % 3, mode=2)); add(waiters_case(eng, "", 3, nco, 0, 0, 2, 10 + nco % 3, mode=2, ty=3))
+            add(Case(eng, "", [[10, 1], [11, 1, 5, 2], [11, 1, 6, 2], [11, 2, 7, 2], [31], [14, 1, 1, 0], [14, 1, 0, 0], [31], [14, 1, 0, 0], [14, 2, 0, 0]]))
+        # generator with and without an argument, promise moves
+        add(Case(eng, "", [[20, 0, 3, 1], [21, 0, 0, 5], [21, 0, 1, 6]] + ([[21, 0, 2, 7]] if coro else [[21, 0, 0, 7]]) + [[21, 0, 0, 8], [21, 0, 0, 9], [22, 0],
+                           [20, 1, 2, 0], [21, 1, 0, 4], [21, 1, 1, 4], [21, 1, 1, 4], [22, 1]]))
+        add(Case(eng, "", [[1, 0, 3], [2, 0], [8, 0], [3, 0, 5, 0], [8, 0], [6, 0, 0, 0, 0, 9], [8, 0], [7, 0], [1, 1, 2], [2, 1], [4, 1, 0], [5, 1, 0], [6, 1, 0, 0, 0, 11], [7, 1]]))
         # contended mutex with 1..6 waiters
         for nw in range(0, 7):
             add(mutex_case(eng, "", [0] * nw, [0]))
@@ -338,6 +365,9 @@ def gen(seed, tier):
             add(rounds_case(eng, "", 0, 300, 0)); add(rounds_case(eng, "", 0, 300, 1))
         # deque map growth: queue spanning three nodes when the finish node reaches the end of the 8-entry map
         add(waiters_case(eng, "", 0, 195, 0, 0, 0, 0, pre=130))
+        # ... the same reached with one handle per suspend point: 195 coroutine starts queued behind each other
+        add(waiters_case(eng, "", 0, 195, 0, 0, 0, 0, pre=130, mode=2))
+        add(Case(eng, "", [[31] for _ in range(130)] + [[11, 0, 500 + i, 2] for i in range(195)] + [[31]] + [[14, 0, 0, 0], [31]] * 196))
         add(waiters_case(eng, "", 0, 140, 0, 0, 0, 0, pre=255, post_pause=True))
     # random programs
     nrand = 360 if quick else 5000
@@ -358,7 +388,86 @@ def _fields(line):
         return None
 
 
+def deque_component(case):
+    """per step (allocs, bytes, frees, bytes) of the ready-queue deque alone, from the extracted model (engine al??q)"""
+    p = os.path.join(vlib.BUILD, "alq_%d.txt" % os.getpid())
+    os.makedirs(vlib.BUILD, exist_ok=True)
+    vlib.write_cases([Case(case.engine + "q", "q", case.ops)], p)
+    try:
+        lines = vlib.modelrun(p).get("q", [])
+    finally:
+        os.remove(p)
+    return [_fields(l) for l in lines]
+
+
+def first_diff(impl_obs, model_obs):
+    for i, (a, b) in enumerate(zip(impl_obs, model_obs)):
+        if a != b:
+            return i
+    return min(len(impl_obs), len(model_obs)) if len(impl_obs) != len(model_obs) else -1
+
+
+def signature(case, impl_obs, model_obs):
+    last = impl_obs[-1] if impl_obs else ""
+    if last.startswith("CRASH"):
+        return "%s:%s" % (case.engine, last.split()[1] if len(last.split()) > 1 else "crash")
+    if last in ("HANG", "MISSING", "SKIPPED"):
+        return "%s:%s" % (case.engine, last)
+    if case.engine.startswith("alx"):
+        return "%s:scenario-threads-allocated-other-than-frames" % case.engine
+    coro = case.engine[2] == '1'
+    # The known finding: in coroutine mode the per-thread ready queue (std::deque) allocates one 512-byte node at every
+    # 64th push_back and frees one at every 64th pop_front, exactly where the model's cursor says, and NOTHING else differs
+    # from the model (whose other costs are proved to be the frames and the documented suspend point arrays).
+    if coro and impl_obs == model_obs:
+        dq = [d for d in deque_component(case) if d and any(d)]
+        if dq and all(d[1] == 512 * d[0] and d[3] == 512 * d[2] for d in dq):
+            return "coro-mode:ready-queue-deque:node-512B-every-64th-enqueue"
+        if dq:
+            return "coro-mode:ready-queue-deque:node-512B+map-growth"
+        return "%s:trace-rejected-by-oracle" % case.engine
+    i = first_diff(impl_obs, model_obs)
+    if i < 0:
+        return "%s:trace-rejected-by-oracle" % case.engine
+    op = case.ops[i] if i < len(case.ops) else []
+    a = _fields(impl_obs[i]) if i < len(impl_obs) else None
+    b = _fields(model_obs[i]) if i < len(model_obs) else None
+    # coarse on purpose (one replay per engine / op kind / what is off), the replay file carries the numbers
+    what = "?"
+    if a and b and len(a) >= 9 and len(b) >= 9:
+        what = "frames" if a[3:5] != b[3:5] else ("other-allocations" if a[5:9] != b[5:9] else "behaviour")
+    return "%s:op%s:%s-differ-from-model" % (case.engine, op[0] if op else "?", what)
+
+
+def gen_xcell(seed, tier):
+    """C01/C02 scenarios (tools/props/cellcommon.py), non-allocating payload types, re-targeted at the cross-check engines"""
+    from props import cellcommon
+    m = {"cell_int": "alxc_int", "cell_void": "alxc_void", "cell_ref": "alxc_ref", "cell_cnt": "alxc_cnt"}
+    quota = 150 if tier == "quick" else 1500
+    out = []
+    for focus in ("waiters", "resolvers"):
+        cs = [c for c in cellcommon.gen(seed, "quick" if tier == "quick" else "thorough", focus) if c.engine in m]
+        for c in cs[:quota]:
+            out.append(Case(m[c.engine], "x" + focus[0] + c.name, c.ops))
+    return out
+
+
+def gen_xmutex(seed, tier):
+    from props import mutexcommon
+    cs = mutexcommon.gen(seed, "quick" if tier == "quick" else "thorough", "mutex")
+    return [Case("alxm", "xm" + c.name, c.ops) for c in cs[:(200 if tier == "quick" else 2000)]]
+
+
+def obs_equal(case, model_obs, impl_obs):
+    if case.engine.startswith("alx") and impl_obs == []:
+        return True      # deadlocked schedule (process restarted by the scenario harness): C02 / C07 judge that
+    return model_obs == impl_obs
+
+
 def nontrivial(case, model_obs):
+    if case.engine.startswith("alx"):
+        a = _fields(model_obs[0]) if model_obs else None
+        return bool(a) and len(a) == 2 and a[1] >= 1
     for l in model_obs:
         a = _fields(l)
         if a and a[0] == 0 and len(a) > 9:
@@ -366,45 +475,6 @@ def nontrivial(case, model_obs):
     return False
 
 
-FRAME_OPS = {3: 1, 11: 1, 20: 1}
-
-
-def offending(case, obs):
-    """accepted steps of an observed trace that break the property: (index, op, fields, frames_ok)"""
-    heap = case.engine[3] != 's'
-    out = []
-    for i, (op, l) in enumerate(zip(case.ops, obs)):
-        a = _fields(l)
-        if not a or a[0] != 0 or len(a) < 9:
-            continue
-        exp_frames = FRAME_OPS.get(op[0], 0) if (heap and op) else 0
-        frames_ok = a[3] == exp_frames and (heap or a[4] == 0)
-        other = a[2] <= 3 and (a[5] or a[6] or a[7] or a[8])
-        if not frames_ok or other:
-            out.append((i, op, a, frames_ok))
-    return out
-
-
-def signature(case, impl_obs, model_obs):
-    last = impl_obs[-1] if impl_obs else ""
-    if last.startswith("CRASH"):
-        return "%s:%s" % (case.engine, last.split()[1] if len(last.split()) > 1 else "crash")
-    if last in ("HANG", "MISSING"):
-        return "%s:%s" % (case.engine, last)
-    bad = offending(case, impl_obs)
-    coro = case.engine[2] == '1'
-    # The known finding: in coroutine mode the per-thread ready queue (std::deque) allocates one 512-byte node at every
-    # 64th push_back and frees one at every 64th pop_front, exactly where the model's cursor says, and nothing else differs.
-    if coro and bad and impl_obs == model_obs and all(fr for (_, _, _, fr) in bad):
-        if all(a[6] == 512 * a[5] and a[8] == 512 * a[7] for (_, _, a, _) in bad):
-            return "coro-mode:ready-queue-deque:node-512B-every-64th-enqueue"
-        return "coro-mode:ready-queue-deque:node-512B+map-growth"
-    if not bad:
-        return "%s:trace-rejected-by-oracle" % case.engine
-    i, op, a, fr = bad[0]
-    what = "frames" if not fr else "other"
-    return "%s:op%d:%s:fa=%d,ff=%d,oa=%d/%dB,of=%d/%dB%s" % (case.engine, op[0] if op else -1, what, a[3], a[4], a[5], a[6], a[7], a[8],
-                                                            "" if impl_obs == model_obs else ":differs-from-model")
-
-
-PARTS = [{"name": "seq_alloc", "harness": "seq_alloc.cpp", "gen": gen, "timeout_case": 30}]
+PARTS = [{"name": "seq_alloc", "harness": "seq_alloc.cpp", "gen": gen, "timeout_case": 30},
+         {"name": "xalloc_cell", "harness": "xalloc_cell.cpp", "gen": gen_xcell, "timeout_case": 20},
+         {"name": "xalloc_mutex", "harness": "xalloc_mutex.cpp", "gen": gen_xmutex, "timeout_case": 20}]
